@@ -1165,7 +1165,7 @@ func specFor(name string) *pbt.Spec[Case] {
 	}
 	sp := pbt.Register(pbt.Spec[Case]{
 		Prop: "C09", Name: "hist-" + name, Rule: rule,
-		Quick: 300, Thorough: 30000,
+		Quick: 600, Thorough: 30000,
 		Draw: drawCase(s),
 		Run:  runCase,
 	})
